@@ -1594,32 +1594,59 @@ mod root {
             };
             for k in ks {
                 eval_case(sh, n, k, &mut agg);
+                // builder programs that take a mapping back: after all records are added, the
+                // FileDataID of one record (first, middle, last) is removed again
+                if n >= 2 && sh.layout != 1 && (n <= 4 || [17, 18, 100, 101, 130].contains(&n)) {
+                    for r in [0, n / 2, n - 1] {
+                        eval_case_removing(sh, n, k, Some(r), &mut agg);
+                    }
+                }
             }
         }
         agg
     }
 
     pub fn eval_case(sh: &Shard, n: u32, k: u32, agg: &mut Agg) {
+        eval_case_removing(sh, n, k, None, agg);
+    }
+
+    pub fn eval_case_removing(sh: &Shard, n: u32, k: u32, remove: Option<u32>, agg: &mut Agg) {
         let cx = Cx {
             structure: "root",
             group: format!("V{}", sh.ver),
             group_of: Vec::new(),
-            params: format!("files={n},named={k},locales={},layout={}{}", sh.groups, sh.layout, if sh.plain_unnamed { ",unnamed-without-NO_NAME_HASH" } else { "" }),
-            wit: json!({"section": "root", "shard": sh, "n": n, "k": k}),
+            params: format!(
+                "files={n},named={k},locales={},layout={}{}{}",
+                sh.groups,
+                sh.layout,
+                if sh.plain_unnamed { ",unnamed-without-NO_NAME_HASH" } else { "" },
+                match remove {
+                    None => String::new(),
+                    Some(r) => format!(",then-remove_file(record {})", if r == 0 { "first" } else if r == n - 1 { "last" } else { "middle" }),
+                }
+            ),
+            wit: json!({"section": "root", "shard": sh, "n": n, "k": k, "remove": remove}),
         };
         agg.cases += 1;
-        let recs = records(sh, n, k);
+        let all_recs = records(sh, n, k);
+        let removed_fdid = remove.map(|r| all_recs[r as usize].fdid);
+        let recs: Vec<Rec> = all_recs.iter().filter(|r| Some(r.fdid) != removed_fdid).cloned().collect();
+        // what the header has to say about the manifest that is left
+        let (n, k) = (recs.len() as u32, recs.iter().filter(|r| r.path.is_some()).count() as u32);
         // sanity of the alphabet: distinct (fdid, locale), distinct name hashes per fdid
         debug_assert!({
             let mut s = BTreeSet::new();
             recs.iter().all(|r| s.insert((r.fdid, r.loc)))
         });
-        let insertion: Vec<usize> = if sh.layout == 1 || sh.layout == 3 { (0..recs.len()).rev().collect() } else { (0..recs.len()).collect() };
+        let insertion: Vec<usize> = if sh.layout == 1 || sh.layout == 3 { (0..all_recs.len()).rev().collect() } else { (0..all_recs.len()).collect() };
         let built = catch(|| {
             let mut b = RootBuilder::new(version(sh.ver));
             for i in &insertion {
-                let r = &recs[*i];
+                let r = &all_recs[*i];
                 b.add_file(FileDataId::new(r.fdid), ContentKey::from_bytes(r.ckey), r.path.as_deref(), LocaleFlags::new(r.loc), ContentFlags::new(r.cf));
+            }
+            if let Some(f) = removed_fdid {
+                b.remove_file(FileDataId::new(f));
             }
             b.build()
         });
@@ -2617,7 +2644,7 @@ fn eval_witness(w: &Value) -> Option<Agg> {
         }
         "root" => {
             let sh: root::Shard = serde_json::from_value(case["shard"].clone()).ok()?;
-            root::eval_case(&sh, case["n"].as_u64()? as u32, case["k"].as_u64()? as u32, &mut agg);
+            root::eval_case_removing(&sh, case["n"].as_u64()? as u32, case["k"].as_u64()? as u32, case["remove"].as_u64().map(|r| r as u32), &mut agg);
         }
         "tvfs" => {
             let c: tvfs::Case = serde_json::from_value(case["case"].clone()).ok()?;
